@@ -487,6 +487,18 @@ def run(tier: str) -> int:
                 rep.add_violation(f"launch-skeleton:{'failing' if failed else 'ok'}:{'file' if to_file else 'directory'}",
                                   "the launch trace is not run_space_start, the planned runs in order up to the first failure, run_space_end with truthful counts",
                                   dict(pub, observed=sk, documented=want, exit_code=code, stderr=se[-300:]))
+            if to_file and len(tfiles) == 1:
+                # one file: a reader sees the lines in file order — the launch's records must be bracketed *there* too
+                lines = next(iter(tfiles.values()))
+                sk_file = skeleton(lines)
+                if sk_file != want and sk == want:
+                    rep.add_violation("launch-skeleton:file-order",
+                                      "in single-file output the lines are not in emission order (run_space_start first, run_space_end last, runs in between)",
+                                      dict(pub, file_order=sk_file, documented=want))
+                seqs = [r.get("seq") for r in lines if isinstance(r.get("seq"), int)]
+                if seqs != sorted(seqs):
+                    rep.add_violation("launch-skeleton:file-order", "sequence numbers do not increase along the lines of the single trace file",
+                                      dict(pub, seqs=seqs))
             if (code == 0) != (not failed):
                 rep.add_violation("exit-code", "the exit code does not say whether a run failed", dict(pub, exit_code=code, outcomes=outcomes))
             if drv is not None and shape is not None:
